@@ -570,7 +570,14 @@ func (c *Context) doKill(message *vivid.OnKill, behavior vivid.Behavior) {
 	// 等待所有子 Actor 结束，假设是重启，子 Actor 不应该跟随重启，应该由父节点决定是否重启
 	for _, child := range c.Children() {
 		c.Logger().Debug("notify child kill", log.String("path", child.GetPath()))
-		c.Kill(child, message.Poison, message.Reason)
+		poison := message.Poison
+		if ref, ok := child.(*Ref); ok && poison && c.system.findMailbox(ref).IsPaused() {
+			// 毒杀指令以用户消息投递，邮箱被挂起（失败后等待监管决策）的子 Actor 无法处理它；
+			// 而其故障可能已被升级给一个只会终止/重启上级的监管者，不会再有人恢复或终止它，自身便永远等不到它的终止。
+			// 因此对挂起中的子 Actor 立即（以系统消息）终止
+			poison = false
+		}
+		c.Kill(child, poison, message.Reason)
 	}
 
 	// 宣告自己进入死亡中
